@@ -1213,6 +1213,17 @@ func genTriple(t *rapid.T, c *Case, nc int, torsion bool) Triple {
 	sw := isSwitch(c.Mode)
 	tr := Triple{}
 	var key string
+	if sw && rapid.IntRange(0, 5).Draw(t, "oob") == 0 {
+		// selector outside the candidate list ("the proof will fail", std/selector Mux doc) with a proof
+		// and statement that are genuine for the last or the first candidate key: a multiplexer that
+		// wraps around or saturates would verify it
+		n := len(c.KeyList)
+		j := rapid.SampledFrom([]int{n - 1, n - 1, 0}).Draw(t, "oobkey")
+		cb := combosByKey[c.KeyList[j]][0]
+		tr.Proof, tr.Key, tr.Pub = cb.proof, cb.key, cb.pub
+		tr.Sel = rapid.SampledFrom([]int{n, n, n, n + 1, 4, -1}).Draw(t, "oobsel")
+		return tr
+	}
 	if sw {
 		tr.Sel = rapid.IntRange(0, len(c.KeyList)-1).Draw(t, "sel")
 		key = c.KeyList[tr.Sel]
@@ -1274,10 +1285,6 @@ func genTriple(t *rapid.T, c *Case, nc int, torsion bool) Triple {
 			}
 			tr.Key = rapid.SampledFrom(others).Draw(t, "otherkey")
 		}
-	}
-	if sw && rapid.IntRange(0, 9).Draw(t, "oob") == 0 {
-		// selector outside the candidate list: "the proof will fail" (std/selector Mux doc)
-		tr.Sel = rapid.SampledFrom([]int{len(c.KeyList), len(c.KeyList) + 1, 4, -1}).Draw(t, "oobsel")
 	}
 	return tr
 }
